@@ -1,6 +1,8 @@
 package rules
 
 import (
+	"golang.org/x/tools/go/cfg"
+
 	"go/ast"
 	"go/token"
 	"go/types"
@@ -378,6 +380,64 @@ func ruleAllModelsValidated(c *core.Ctx) {
 			}
 			return true
 		})
+	}
+	// every import becomes a reference of THIS namespace: on every path through the body of the import loop that comes
+	// round again, the append to References is executed (a memo hit or any other test must not skip it — the importing
+	// namespace needs the reference whoever parsed the package first)
+	for _, l := range il {
+		var app ast.Stmt
+		ast.Inspect(l.Body, func(x ast.Node) bool {
+			if as, ok := x.(*ast.AssignStmt); ok && len(as.Lhs) == 1 {
+				if se, ok := ast.Unparen(as.Lhs[0]).(*ast.SelectorExpr); ok {
+					if k, ok := fieldOf(info, se); ok && k.typ == "Namespace" && k.field == "References" {
+						app = as
+					}
+				}
+			}
+			return true
+		})
+		if app == nil || len(l.Body.List) == 0 {
+			continue
+		}
+		fc := core.NewCFG(ppnd.Body, info)
+		start := fc.BlockOf(l.Body.List[0])
+		appBlock := fc.BlockOf(app)
+		inside := func(b *cfg.Block) bool {
+			if b.Stmt != nil {
+				return l.Body.Pos() <= b.Stmt.Pos() && b.Stmt.End() <= l.Body.End()
+			}
+			for _, nd := range b.Nodes {
+				if nd.Pos() < l.Body.Pos() || nd.End() > l.Body.End() {
+					return false
+				}
+			}
+			return len(b.Nodes) > 0
+		}
+		skipped := false
+		if start != nil && appBlock != nil {
+			seen := map[int32]bool{start.Index: true}
+			var walk func(b *cfg.Block)
+			walk = func(b *cfg.Block) {
+				if b == appBlock {
+					return
+				}
+				for _, s := range b.Succs {
+					if !inside(s) {
+						if len(s.Succs) > 0 { // the loop head (a return block has no successors)
+							skipped = true
+						}
+						continue
+					}
+					if !seen[s.Index] {
+						seen[s.Index] = true
+						walk(s)
+					}
+				}
+			}
+			walk(start)
+		}
+		c.Check(start != nil && appBlock != nil && !skipped, rule, "parsePackageNamespaces/every import is referenced", app.Pos(), "every iteration of the import loop that does not return appends to References",
+			"an iteration of the import loop can finish without appending the imported namespace to References: that importer then generates code without the import (undefined names in the generated package) although another importer of the same package keeps it")
 	}
 	c.Check(okRec, rule, "parsePackageNamespaces/recurse imp.Package", ppnd.Pos(), "every import is parsed recursively", "imports are not parsed recursively")
 	c.Check(okAppend, rule, "parsePackageNamespaces/References append", ppnd.Pos(), "every parsed import becomes a reference of the namespace", "parsed imports are not attached to namespace.References")
